@@ -77,7 +77,7 @@ func expectEntry(e *deb.ArEntry, m ArMember, i int) error {
 
 var specC13 = Register(&Spec[ArCase]{
 	Prop: "C13", Name: "members",
-	Rule: "ar archives rendered by an independent writer from a member-list model: 0..8 members; names of 1..16 bytes over [A-Za-z0-9._+-] (16-byte class), optional GNU '/' terminator; mtime < 10^12, uid/gid < 10^6, mode up to 8 octal digits, each numeric column independently blank; data empty, 1 byte, odd, even, up to 8 KiB, or built from look-alike headers / the global magic / header terminators; one newline pad after odd sizes (also after the last member). Oracle: LoadAr + Next() return exactly the model sequence (Name, Timestamp, OwnerID, GroupID, FileMode, Size), io.ReadAll(Data) == data; a member read half-way before the iterator advances finishes with the right bytes; after exhaustion Next() returns io.EOF repeatedly and every earlier Data reader still yields its bytes after Seek(0,0) and via ReadAt at generated offsets. Non-trivial: >= 2 members, or a zero-length / odd-length / 16-byte-name member; distinct by archive.",
+	Rule: "ar archives rendered by an independent writer from a member-list model: 0..8 members; names of 1..16 bytes over [A-Za-z0-9._+-] (16-byte class), optional GNU '/' terminator; mtime < 10^12, uid/gid < 10^6, mode up to 8 octal digits, each numeric column independently blank; data empty, 1 byte, odd, even, up to 8 KiB, or built from look-alike headers / the global magic / header terminators; one newline pad after odd sizes (also after the last member). Oracle: LoadAr + Next() return exactly the model sequence (Name, Timestamp, OwnerID, GroupID, FileMode, Size), io.ReadAll(Data) == data; a member read half-way before the iterator advances finishes with the right bytes; a second iterator opened on the same ReaderAt and advanced one step behind sees the same members; after exhaustion Next() returns io.EOF repeatedly and every earlier Data reader still yields its bytes after Seek(0,0) and via ReadAt at generated offsets. Non-trivial: >= 2 members, or a zero-length / odd-length / 16-byte-name member; distinct by archive.",
 	Check: func(c ArCase, r *Recorder) error {
 		nt := len(c.Members) >= 2
 		cl := []string{}
@@ -114,9 +114,38 @@ var specC13 = Register(&Spec[ArCase]{
 			}
 			r.Sample(names)
 		}
-		ar, err := deb.LoadAr(bytes.NewReader(raw))
+		shared := bytes.NewReader(raw)
+		ar, err := deb.LoadAr(shared)
 		if err != nil {
 			return errf("LoadAr rejected a well-formed archive (%d members): %v", len(c.Members), err)
+		}
+		// a second, independent iterator over the same ReaderAt, advanced in lock-step (one step behind)
+		ar2, err := deb.LoadAr(shared)
+		if err != nil {
+			return errf("second LoadAr on the same ReaderAt failed: %v", err)
+		}
+		defer func() {
+			// (checked at the end through the closure below)
+		}()
+		second := func(i int) error {
+			e, err := ar2.Next()
+			if i >= len(c.Members) {
+				if err != io.EOF {
+					return errf("second iterator: after the last member Next() = %v, %v", e, err)
+				}
+				return nil
+			}
+			if err != nil {
+				return errf("second iterator over the same ReaderAt: Next() for member %d: %v", i, err)
+			}
+			if err := expectEntry(e, c.Members[i], i); err != nil {
+				return errf("second iterator: %v", err)
+			}
+			got, err := io.ReadAll(e.Data)
+			if err != nil || !bytes.Equal(got, c.Members[i].Data) {
+				return errf("second iterator: member %d data differs", i)
+			}
+			return nil
 		}
 		entries := []*deb.ArEntry{}
 		var halfBuf []byte
@@ -129,6 +158,11 @@ var specC13 = Register(&Spec[ArCase]{
 				return err
 			}
 			entries = append(entries, e)
+			if i > 0 {
+				if err := second(i - 1); err != nil {
+					return err
+				}
+			}
 			if i == c.Half {
 				halfBuf = make([]byte, len(m.Data)/2)
 				if _, err := io.ReadFull(e.Data, halfBuf); err != nil {
@@ -140,6 +174,14 @@ var specC13 = Register(&Spec[ArCase]{
 					return errf("member %d (%s): read %d bytes (err %v) that differ from the %d packaged bytes", i, m.Name, len(got), err, len(m.Data))
 				}
 			}
+		}
+		if len(c.Members) > 0 {
+			if err := second(len(c.Members) - 1); err != nil {
+				return err
+			}
+		}
+		if err := second(len(c.Members)); err != nil {
+			return err
 		}
 		for k := 0; k < 3; k++ {
 			e, err := ar.Next()
